@@ -6,22 +6,35 @@
 set -u
 N=${1:-3}
 CFG=${2:-default}
-cd /verif/dblbuild || exit 2
 export CARGO_NET_OFFLINE=true
 unset RUSTFLAGS
-export CARGO_TARGET_DIR=/verif/target/dbl
-[ -f Cargo.lock ] || cp /repo/Cargo.lock Cargo.lock
+if [ -n "${VERIF_REPO:-}" ]; then
+  # tooling only (tools/sensitivity.sh): same sources against another checkout of the repository
+  sh=/verif/target/${VERIF_SHADOW:-shadow}-dbl
+  mkdir -p "$sh"
+  sed -e "s|path = \"/repo/ts-rs\"|path = \"$VERIF_REPO/ts-rs\"|" /verif/dblbuild/Cargo.toml > "$sh/Cargo.toml"
+  printf '\n[[bin]]\nname = "tsrs-dblbuild"\npath = "/verif/dblbuild/src/main.rs"\n' >> "$sh/Cargo.toml"
+  [ -f "$sh/Cargo.lock" ] || cp /repo/Cargo.lock "$sh/Cargo.lock"
+  cd "$sh" || exit 2
+  export CARGO_TARGET_DIR=$sh-target
+  TOUCH=/verif/dblbuild/src/main.rs
+else
+  cd /verif/dblbuild || exit 2
+  export CARGO_TARGET_DIR=/verif/target/dbl
+  [ -f Cargo.lock ] || cp /repo/Cargo.lock Cargo.lock
+  TOUCH=src/main.rs
+fi
 feats=""; [ "$CFG" = esm ] && feats="--features esm"
-work=/verif/target/dbl-run
+work=$CARGO_TARGET_DIR-run
 rm -rf "$work"; mkdir -p "$work"
 for i in $(seq 1 "$N"); do
-  touch src/main.rs
+  touch "$TOUCH"
   if ! cargo build --offline $feats >"$work/build$i.log" 2>&1; then
     grep -E "^error" -A10 "$work/build$i.log" | head -40 >&2
     echo "HARNESS ERROR: double-build compilation $i failed" >&2; exit 2
   fi
   mkdir -p "$work/tree$i"
-  if ! /verif/target/dbl/debug/tsrs-dblbuild "$work/tree$i" >"$work/dump$i.txt" 2>"$work/run$i.err"; then
+  if ! "$CARGO_TARGET_DIR/debug/tsrs-dblbuild" "$work/tree$i" >"$work/dump$i.txt" 2>"$work/run$i.err"; then
     echo "HARNESS ERROR: double-build run $i failed: $(head -5 "$work/run$i.err")" >&2; exit 2
   fi
 done
@@ -29,8 +42,8 @@ rc=0
 for i in $(seq 2 "$N"); do
   if ! cmp -s "$work/dump1.txt" "$work/dump$i.txt"; then
     rc=1
-    mkdir -p /verif/replays
-    rp=/verif/replays/C13-doublebuild-$CFG.json
+    mkdir -p "${VERIF_REPLAYS:-/verif/replays}"
+    rp=${VERIF_REPLAYS:-/verif/replays}/C13-doublebuild-$CFG.json
     diff "$work/dump1.txt" "$work/dump$i.txt" | head -60 > "$work/diff.txt"
     jq -n --arg cfg "$CFG" --arg n "$N" --rawfile d "$work/diff.txt" \
       '{property:"C13", kind:"double-build", config:$cfg, builds:($n|tonumber), oracle:"double-build-diff", detail:("two real compilations of /verif/dblbuild produced different dumps:\n"+$d), note:"replay = re-run tools/double_build.sh; reproduction depends on the hash seeds of the new compilations"}' > "$rp"
